@@ -2,7 +2,7 @@
 
 package lz
 
-// lzvc-props: C01 C02 C07 C20
+// lzvc-props: C01 C02 C07 C08 C20
 // (the assumed contract of computeEdges carries the OSAP share of these properties)
 
 // Bounded stand-in for C11 and for the ASSUMED contract of optSuffixArrayParser.computeEdges
